@@ -1,0 +1,38 @@
+//go:build verif
+
+// Ghost driver for /verif/govc (see /verif/DESIGN.md, "history lemmas"): an arbitrary history of device-flow
+// operations written as a loop, so that the induction over histories becomes a loop invariant proved from the
+// contracts of the real handler functions. Compiled only with the build tag verif; never called.
+package rfc8628
+
+import (
+	"context"
+
+	"github.com/ory/fosite"
+)
+
+// verifEnv decides how long the history is, which operation comes next and with which inputs.
+type verifEnv interface {
+	More() bool
+	Kind() int
+	Request() fosite.AccessRequester
+	Response() fosite.AccessResponder
+	DeviceRequest() fosite.DeviceRequester
+	Grant() string
+}
+
+// verifHistoryDeviceFlow: any sequence of device authorizations (new device and user codes) and polls of the token
+// endpoint with any device code (pending, accepted, denied, used, unknown).
+func verifHistoryDeviceFlow(ctx context.Context, env verifEnv, poll *DeviceCodeTokenEndpointHandler, auth *DeviceAuthHandler, sig0 string) {
+	for env.More() {
+		switch env.Kind() {
+		case 0:
+			req, resp := env.Request(), env.Response()
+			if poll.HandleTokenEndpointRequest(ctx, req) == nil {
+				_ = poll.PopulateTokenEndpointResponse(ctx, req, resp)
+			}
+		case 1:
+			_, _, _ = auth.handleDeviceAuthSession(ctx, env.DeviceRequest())
+		}
+	}
+}
